@@ -653,3 +653,21 @@ func ImpliedByCall(call *ssa.Call, truth bool) []Atom {
 	}
 	return impliedAtoms(cc, truth, ns, nil, 1)
 }
+
+// DominatingConds returns the branch conditions (SSA values) whose outcome is fixed on every path to blk,
+// with the truth value they have there.
+func DominatingConds(blk *ssa.BasicBlock) map[ssa.Value]bool {
+	out := map[ssa.Value]bool{}
+	for d := blk.Idom(); d != nil; d = d.Idom() {
+		ifi, ok := d.Instrs[len(d.Instrs)-1].(*ssa.If)
+		if !ok {
+			continue
+		}
+		for i := 0; i < 2; i++ {
+			if edgeDominates(d, i, blk) {
+				out[ifi.Cond] = i == 0
+			}
+		}
+	}
+	return out
+}
